@@ -62,6 +62,13 @@ def run(pid, tier, seed):
             sc = json.loads(k)
             cases.append({"id": i + 1, "script": sc, "finals": design[k]})
             index[json.dumps(sc, sort_keys=True)] = i
+        # a cancel that arrives while the request is being set up races with the executor's own first message: these scripts
+        # are run four times each (the race showed in about one run in ten before the repair c1e34d2)
+        racy = [c for c in cases if any(e["ev"] in ("ctxcancel", "apicancel") and e["at"] in ("setup", "queued") for e in c["script"])]
+        for rep in range(3):
+            for c in racy:
+                cases.append({"id": len(cases) + 1, "script": c["script"], "finals": c["finals"]})
+
         def judge(cs, tag):
             """replay the scripts cs (renumbered 1..n) on the real requestor and let the oracle judge them"""
             cs = [dict(c, id=i + 1) for i, c in enumerate(cs)]
